@@ -257,6 +257,9 @@ class PageBreakCalculator(BaseModel):
 
         # Pre-calculate group changes
         page_by_changes = [True] * df.height
+        # Outermost page_by level that changes at each row (0 for the first row):
+        # that level and every level below it get a heading row of their own.
+        page_by_first_change = [0] * df.height
         subline_by_changes = [True] * df.height
 
         if page_by:
@@ -269,9 +272,10 @@ class PageBreakCalculator(BaseModel):
 
                 # Check page_by
                 is_diff = False
-                for col in page_by:
+                for level, col in enumerate(page_by):
                     if str(prev_row[col]) != str(curr_row[col]):
                         is_diff = True
+                        page_by_first_change[i] = level
                         break
                 page_by_changes[i] = is_diff
 
@@ -347,17 +351,14 @@ class PageBreakCalculator(BaseModel):
             # 2. Calculate header rows
             pageby_rows = 0
             if page_by and page_by_changes[row_idx]:
-                # Construct header text
-                header_parts = []
-                for col in page_by:
+                # One spanning heading row per rendered level: the outermost
+                # changed level and all levels below it ("-----" renders nothing)
+                for col in page_by[page_by_first_change[row_idx] :]:
                     val = df[col][row_idx]
                     if str(val) != "-----":
-                        header_parts.append(f"{col}: {val}")
-                header_text = " | ".join(header_parts)
-                if header_text:
-                    pageby_rows = self._calculate_header_rows(
-                        header_text, total_width, font_size=int(font_size)
-                    )  # type: ignore
+                        pageby_rows += self._calculate_header_rows(
+                            f"{col}: {val}", total_width, font_size=int(font_size)
+                        )  # type: ignore
 
             subline_rows = 0
             if subline_by and subline_by_changes[row_idx]:
@@ -376,16 +377,22 @@ class PageBreakCalculator(BaseModel):
             # Rows the page_by heading needs when this row opens a page on which
             # its group merely continues (the heading is repeated at the top)
             continuation_rows = 0
-            if page_by and not page_by_changes[row_idx]:
-                header_parts = [
-                    f"{col}: {df[col][row_idx]}"
-                    for col in page_by
-                    if str(df[col][row_idx]) != "-----"
-                ]
-                if header_parts:
-                    continuation_rows = self._calculate_header_rows(
-                        " | ".join(header_parts), total_width, font_size=int(font_size)
-                    )  # type: ignore
+            if page_by:
+                # Levels whose heading is not part of this row's own pageby_rows:
+                # all of them when the group merely continues, the unchanged outer
+                # levels when an inner level starts a new group.
+                repeated_levels = (
+                    page_by[: page_by_first_change[row_idx]]
+                    if page_by_changes[row_idx]
+                    else page_by
+                )
+                for col in repeated_levels:
+                    if str(df[col][row_idx]) != "-----":
+                        continuation_rows += self._calculate_header_rows(
+                            f"{col}: {df[col][row_idx]}",
+                            total_width,
+                            font_size=int(font_size),
+                        )  # type: ignore
 
             total_rows = max_lines_in_row + pageby_rows + subline_rows
 
